@@ -1,6 +1,7 @@
 package gvc
 
 import (
+	"os"
 	"fmt"
 	"go/types"
 	"strings"
@@ -64,6 +65,9 @@ func (u *Unit) virtRegion(st *State, c *Term) *Region {
 // of a contract call) gets its own contents array, tied to every existing
 // region it may coincide with.
 func (u *Unit) regionOf(st *State, blk *Term) *Region {
+	if blk.BlkOf != nil {
+		blk = blk.BlkOf
+	}
 	if c, ok := st.canon[blk.S]; ok {
 		return st.regions[c]
 	}
@@ -78,7 +82,21 @@ func (u *Unit) regionOf(st *State, blk *Term) *Region {
 		c    *Term
 	}
 	var alts []alt
-	for _, k := range st.order {
+	cands := st.order
+	if bm, ok := u.blkInfo[blk.S]; ok && u.specMode >= 0 {
+		// a slice returned by a contract call: allocated by the callee (fresh)
+		// or pointing into a region that existed before the call
+		if u.provable(Or(Eq(blk, IntLit(0)), Ge(blk, bm.base))) {
+			r.C = c
+			r.Fresh = u.provable(Or(Eq(blk, IntLit(0)), Ge(blk, u.alloc0)))
+			u.addRegion(st, r)
+			return r
+		}
+		if bm.epoch < len(cands) {
+			cands = cands[:bm.epoch]
+		}
+	}
+	for _, k := range cands {
 		q := st.regions[k]
 		if q.Virt {
 			continue
@@ -87,9 +105,22 @@ func (u *Unit) regionOf(st *State, blk *Term) *Region {
 		if cond.IsBool && !cond.B {
 			continue
 		}
+		if _, tracked := u.blkInfo[blk.S]; tracked {
+			if u.provable(cond) {
+				st.canon[blk.S] = k
+				return q
+			}
+			if u.provable(Not(cond)) {
+				continue
+			}
+		}
 		alts = append(alts, alt{cond, q.C})
 		st.edges[blk.S] = append(st.edges[blk.S], Edge{Other: k, Cond: cond})
 		st.edges[k] = append(st.edges[k], Edge{Other: blk.S, Cond: cond})
+	}
+	if os.Getenv("GVC_DEBUG_REGIONS") != "" {
+		_, tracked := u.blkInfo[blk.S]
+		fmt.Fprintf(os.Stderr, "regionOf(%s): tracked=%v alts=%d specMode=%d\n", blk.S, tracked, len(alts), u.specMode)
 	}
 	if len(alts) == 0 {
 		r.C = c
@@ -453,6 +484,9 @@ func (u *Unit) freshVal(st *State, t types.Type, name string, input bool) Val {
 	case *types.Interface:
 		n := u.newBool(name + "_isnil")
 		id := u.newInt(name + "_if")
+		if input {
+			u.ifBound[id.S] = u.alloc0
+		}
 		return IfaceV{Nil: n, Opq: id}
 	case *types.Struct:
 		f := make([]Val, x.NumFields())
